@@ -129,7 +129,7 @@ pub fn run(ctx: &Arc<Ctx>) {
     refmodels::selftest::run(&["sm3", "sm2"]).unwrap_or_else(|e| ctx.machinery_error(format!("reference self-test failed: {}", e)));
     let pr = sm2::params();
     let (n, p) = (pr.n.clone(), pr.p.clone());
-    ctx.set_rule("base ciphertexts (message lengths {1,17,32,33}, thorough 1..=40, x 2 orders x 2 C1 encodings, made by the reference encryptor): every single-bit flip of the whole ciphertext; every truncation length; C1 replaced by (x,y+-1), (x+-1,y), (0,0), points on y^2=x^3+ax+b' (incl. an order-2 point) and points of the quadratic twist (x, rhs^((p+1)/4)) and off-curve points with x^3+ax+b = y or 2y for y in {R^-1, 2R^-1, 2} (cubic solved by the reference), with C2,C3 completed correctly for that point (by the reference and, separately, by the library's own arithmetic on the raw coordinates), compressed x that is a non-residue, x+p aliases of an on-curve point with tiny x, compressed non-residue x with the body completed for the bogus root, a ciphertext whose KDF output is all zero, C1 of another ciphertext; C2/C3 swapped between two ciphertexts; the C1 tag byte replaced by every other value; undecodable / off-curve C1 with the body completed for a fallback point (the recipient's public key, G, zero coordinates). The ASN.1 form through decrypt_asn1 with both values of its compressed flag: every single-bit flip of C1.x, C1.y, C3 and C2 re-encoded as a well-formed GM/T 0009 document, y negated, y + p, off-curve (x, y) with the original body and with the body completed for the foreign point, empty and truncated C2. Oracle: result must be Err — never Ok(anything), never a panic; the untouched ciphertext must decrypt.");
+    ctx.set_rule("base ciphertexts (message lengths {1,17,32,33}, thorough 1..=40, x 2 orders x 2 C1 encodings, made by the reference encryptor): every single-bit flip of the whole ciphertext; C3 with several bytes changed so that the differences cancel (equal XOR differences, sums of 0 mod 256) or with every byte inverted; every truncation length; C1 replaced by (x,y+-1), (x+-1,y), (0,0), points on y^2=x^3+ax+b' (incl. an order-2 point) and points of the quadratic twist (x, rhs^((p+1)/4)) and off-curve points with x^3+ax+b = y or 2y for y in {R^-1, 2R^-1, 2} (cubic solved by the reference), with C2,C3 completed correctly for that point (by the reference and, separately, by the library's own arithmetic on the raw coordinates), compressed x that is a non-residue, x+p aliases of an on-curve point with tiny x, compressed non-residue x with the body completed for the bogus root, a ciphertext whose KDF output is all zero, C1 of another ciphertext; C2/C3 swapped between two ciphertexts; the C1 tag byte replaced by every other value; undecodable / off-curve C1 with the body completed for a fallback point (the recipient's public key, G, zero coordinates). The ASN.1 form through decrypt_asn1 with both values of its compressed flag: every single-bit flip of C1.x, C1.y, C3 and C2 re-encoded as a well-formed GM/T 0009 document, y negated, y + p, x / y + k 2^256, off-curve (x, y) with the original body and with the body completed for the foreign point, empty and truncated C2. Oracle: result must be Err — never Ok(anything), never a panic; the untouched ciphertext must decrypt.");
     let mut g = SplitMix::new(ctx.seed, "c06");
     let lens: Vec<usize> = ctx.tier.pick(vec![1, 17, 32, 33], (1..=40).collect());
     let d = hb(ANNEX_D);
@@ -170,6 +170,23 @@ pub fn run(ctx: &Arc<Ctx>) {
                 for tl in 0..ct.len() {
                     let lab = if tl < c1len { "truncated-inside-C1" } else if tl < c1len + 32 { "truncated-inside-C3-window" } else if tl == c1len + 32 { "truncated-empty-C2" } else { "truncated-body" };
                     cases.push(mk(ct[..tl].to_vec(), None, lab));
+                }
+                // several bytes of C3 changed so that the differences cancel under a sloppy comparison (xor-fold, sum-fold)
+                {
+                    let c3_at = if c1c3c2 { c1len } else { ct.len() - 32 };
+                    let edits: [&[(usize, u8)]; 7] = [&[(0, 0x80), (1, 0x80)], &[(0, 0x80), (31, 0x80)], &[(3, 0x01), (17, 0xff)], &[(5, 0x40), (6, 0xc0)], &[(0, 0x40), (8, 0x40), (16, 0x40), (24, 0x40)], &[(10, 0x55), (20, 0x55)], &[(0, 0xff), (1, 0x01)]];
+                    for e in edits {
+                        let mut f = ct.clone();
+                        for (i, x) in e {
+                            f[c3_at + i] ^= x;
+                        }
+                        cases.push(mk(f, None, "C3-several-bytes-with-cancelling-differences"));
+                    }
+                    let mut f = ct.clone();
+                    for b in f[c3_at..c3_at + 32].iter_mut() {
+                        *b ^= 0xff;
+                    }
+                    cases.push(mk(f, None, "C3-every-byte-inverted"));
                 }
                 // appended byte
                 let mut ext = ct.clone();
@@ -242,6 +259,27 @@ pub fn run(ctx: &Arc<Ctx>) {
                                     }
                                     if let Some((c2, c3)) = complete_with_library_arithmetic(dd, &fpt, &msg) {
                                         cases.push(mk(raw_encode(&unc(xr, &yv), &c2, &c3, c1c3c2), None, &format!("offcurve-rhs(x)={}/y={}/completed-with-library-arithmetic", rl, yl)));
+                                    }
+                                }
+                            }
+                        }
+                    }
+                    // off-curve points that zero an intermediate of the curve equation: x^2 + a = 0 (x = +-sqrt 3), with the y a
+                    // verifier whose product x (x^2 + a) comes out as x, as 1 or as 0 would expect
+                    if let Some(r3) = sm2::sqrt_mod_p(&BigUint::from(3u32)) {
+                        for xz in [r3.clone(), &p - &r3] {
+                            for (yl, rhs) in [("y^2=x+b", (&xz + &pr.b) % &p), ("y^2=1+b", (&pr.b + 1u32) % &p), ("y^2=x^2+b", (&xz * &xz + &pr.b) % &p)] {
+                                if let Some(yz) = sm2::sqrt_mod_p(&rhs) {
+                                    let fpt: Pt = Some((xz.clone(), yz.clone()));
+                                    if sm2::on_curve(&fpt) {
+                                        continue;
+                                    }
+                                    cases.push(mk(raw_encode(&unc(&xz, &yz), &base.c2, &base.c3, c1c3c2), None, &format!("offcurve-x^2+a=0/{}/orig-body", yl)));
+                                    if let Some((c2, c3)) = complete_with_library_arithmetic(dd, &fpt, &msg) {
+                                        cases.push(mk(raw_encode(&unc(&xz, &yz), &c2, &c3, c1c3c2), None, &format!("offcurve-x^2+a=0/{}/completed-with-library-arithmetic", yl)));
+                                    }
+                                    if let Some((c2, c3)) = complete(dd, &fpt, &msg) {
+                                        cases.push(mk(raw_encode(&unc(&xz, &yz), &c2, &c3, c1c3c2), None, &format!("offcurve-x^2+a=0/{}/invalid-curve-completed", yl)));
                                     }
                                 }
                             }
@@ -409,6 +447,12 @@ pub fn run(ctx: &Arc<Ctx>) {
                     cases.push(mk(refmodels::der::sm2_cipher_encode(&fx, &fy, &c3f, &c2f), None, &format!("asn1-off-curve-{}/invalid-curve-completed", lab)));
                 }
                 cases.push(mk(refmodels::der::sm2_cipher_encode(&fx, &fy, &base.c3, &base.c2), None, &format!("asn1-off-curve-{}", lab)));
+            }
+            // a coordinate with further octets in front of its 32 (x + k 2^256, y + k 2^256): not a field element, never the same point
+            for kk in [1u32, 0x7f, 0x80, 0xff] {
+                let bump = BigUint::from(kk) << 256usize;
+                cases.push(mk(refmodels::der::sm2_cipher_encode(&(&x + &bump), &y, &base.c3, &base.c2), None, "asn1-C1.x-plus-k*2^256"));
+                cases.push(mk(refmodels::der::sm2_cipher_encode(&x, &(&y + &bump), &base.c3, &base.c2), None, "asn1-C1.y-plus-k*2^256"));
             }
             // the ciphertext octets removed altogether (empty OCTET STRING): nothing to decrypt, never Ok
             cases.push(mk(refmodels::der::sm2_cipher_encode(&x, &y, &base.c3, &[]), None, "asn1-empty-C2"));
